@@ -5,6 +5,7 @@ instances on which the driver evaluates `Schema.wf` on every run).
 import TdModel.Lemmas.C21
 import TdModel.Lemmas.C21Dec
 import TdModel.Lemmas.C21Flags
+import TdModel.Lemmas.C21Depth
 import TdModel.Lemmas.C21FullA
 import TdModel.Lemmas.C21FullB
 
@@ -14,10 +15,30 @@ open TdModel TdModel.Bin
 /-- Round trip, one theorem for all constructors: on a well-formed schema, for every type `t`
 and every value `v` that `Encode` accepts (`encTy … = some e`), decoding `e` followed by any
 bytes yields exactly `v` and leaves exactly those bytes. -/
-theorem tl_roundtrip (S : Schema) (hwf : S.wf = true) (t : Ty) (v : Val) (e rest : Bytes) (fuel : Nat)
-    (henc : encTy S t v = some e) (hfuel : v.size ≤ fuel) :
-    decTy S fuel t (e ++ rest) = .ok (v, rest) :=
-  (rt_all S hwf).1 v t e rest fuel henc hfuel
+theorem tl_roundtrip (S : Schema) (hwf : S.wf = true) (t : Ty) (v : Val) (e rest : Bytes) (fuel d : Nat)
+    (henc : encTy S t v = some e) (hfuel : v.size ≤ fuel) (hdepth : v.depth ≤ d) :
+    decTy S fuel d t (e ++ rest) = .ok (v, rest) :=
+  (rt_all S hwf).1 v t e rest fuel d henc hfuel hdepth
+
+/-- … in particular with the nesting budget of `bin.Buffer`: every value nested at most 1000
+deep round-trips (deeper ones are rejected by design, see `tl_nesting_bounded`). -/
+theorem tl_roundtrip_1000 (S : Schema) (hwf : S.wf = true) (t : Ty) (v : Val) (e rest : Bytes)
+    (henc : encTy S t v = some e) (hdepth : v.depth ≤ 1000) :
+    decTy S v.size 1000 t (e ++ rest) = .ok (v, rest) :=
+  tl_roundtrip S hwf t v e rest v.size 1000 henc (Nat.le_refl _) hdepth
+
+/-- The nesting limit is enforced for arbitrary bytes: a successful decode with budget `d` went
+through at most `d` nested boxed objects (calls of a generated `DecodeXxx`, the only recursion
+points of the generated code) — the recursion depth of the decoder is bounded by the budget,
+never by the length of the input. -/
+theorem tl_nesting_bounded (S : Schema) (fuel d : Nat) (t : Ty) (b : Bytes) (v : Val) (rest : Bytes)
+    (h : decTy S fuel d t b = .ok (v, rest)) : boxDepthTy S t v ≤ d :=
+  (depth_all S fuel).1 d t b v rest h
+
+theorem max_nesting_depth_is_1000 : Facts.C21.maxNestingDepth = 1000 := by decide
+
+/-- every generated `DecodeXxx` spends the budget: `EnterObject` before its switch, `LeaveObject` deferred. -/
+theorem every_interface_decoder_guarded : Facts.C21.ifacesUnguarded = 0 := by decide
 
 /-- Generic (`!X`) wrappers — invokeWithLayer, initConnection, … — are covered by the same theorem:
 the constructor of the object held by the generic field is a parameter of the schema
@@ -28,25 +49,25 @@ theorem wf_ignores_generic (S : Schema) (g : Option Nat) : ({ S with generic := 
 /-- Re-encoding the decoded value yields identical bytes. -/
 theorem tl_reencode_identical (S : Schema) (hwf : S.wf = true) (t : Ty) (v : Val) (e rest : Bytes)
     (henc : encTy S t v = some e) :
-    ∃ v' r, decTy S v.size t (e ++ rest) = .ok (v', r) ∧ r = rest ∧ encTy S t v' = some e :=
-  ⟨v, rest, tl_roundtrip S hwf t v e rest v.size henc (Nat.le_refl _), rfl, henc⟩
+    ∃ v' r, decTy S v.size v.depth t (e ++ rest) = .ok (v', r) ∧ r = rest ∧ encTy S t v' = some e :=
+  ⟨v, rest, tl_roundtrip S hwf t v e rest v.size v.depth henc (Nat.le_refl _) (Nat.le_refl _), rfl, henc⟩
 
 /-- Arbitrary input: whatever bytes the decoder accepts (any schema, any type, any fuel), it has
 consumed only a prefix of the input (`rest` is a suffix of `b`: nothing outside the buffer is
 read) and the result is a well-typed value: `Encode` accepts it. -/
-theorem tl_decoded_is_value (S : Schema) (fuel : Nat) (t : Ty) (b : Bytes) (v : Val) (rest : Bytes)
-    (h : decTy S fuel t b = .ok (v, rest)) : rest <:+ b ∧ ∃ e, encTy S t v = some e := by
-  obtain ⟨h1, h2⟩ := (dec_ok_all S fuel).1 t b v rest h
+theorem tl_decoded_is_value (S : Schema) (fuel d : Nat) (t : Ty) (b : Bytes) (v : Val) (rest : Bytes)
+    (h : decTy S fuel d t b = .ok (v, rest)) : rest <:+ b ∧ ∃ e, encTy S t v = some e := by
+  obtain ⟨h1, h2⟩ := (dec_ok_all S fuel).1 d t b v rest h
   exact ⟨h1, isSome_some h2⟩
 
 /-- … and its canonical re-encoding is a fixed point: it decodes to the same value (with any
 trailing bytes left untouched), so decode → encode → decode → encode yields identical bytes even
 when the original input was not canonical (non-zero padding, long-form short strings). -/
-theorem tl_decode_reencode_stable (S : Schema) (hwf : S.wf = true) (fuel : Nat) (t : Ty) (b : Bytes)
-    (v : Val) (rest : Bytes) (h : decTy S fuel t b = .ok (v, rest)) :
-    ∃ e, encTy S t v = some e ∧ ∀ rest', decTy S v.size t (e ++ rest') = .ok (v, rest') := by
-  obtain ⟨_, e, he⟩ := tl_decoded_is_value S fuel t b v rest h
-  exact ⟨e, he, fun rest' => tl_roundtrip S hwf t v e rest' v.size he (Nat.le_refl _)⟩
+theorem tl_decode_reencode_stable (S : Schema) (hwf : S.wf = true) (fuel d : Nat) (t : Ty) (b : Bytes)
+    (v : Val) (rest : Bytes) (h : decTy S fuel d t b = .ok (v, rest)) :
+    ∃ e, encTy S t v = some e ∧ ∀ rest', decTy S v.size v.depth t (e ++ rest') = .ok (v, rest') := by
+  obtain ⟨_, e, he⟩ := tl_decoded_is_value S fuel d t b v rest h
+  exact ⟨e, he, fun rest' => tl_roundtrip S hwf t v e rest' v.size v.depth he (Nat.le_refl _) (Nat.le_refl _)⟩
 
 /-- Flag bits are derived from field presence: bit `bit` of the mask that `SetFlags` ORs into
 flags word `k` is set iff some conditional field reading that bit holds a non-zero value. -/
@@ -56,9 +77,9 @@ theorem setflags_bits_iff_presence (S : Schema) (k bit : Nat) (fs : List Field) 
 
 /-- The model's decoder has exactly two outcomes (a value or an error class); there is no
 panic outcome for any bytes, any type, any schema (also ill-formed ones). -/
-theorem tl_decode_total (S : Schema) (fuel : Nat) (t : Ty) (b : Bytes) :
-    (∃ v r, decTy S fuel t b = .ok (v, r)) ∨ (∃ err, decTy S fuel t b = .error err) := by
-  cases h : decTy S fuel t b with
+theorem tl_decode_total (S : Schema) (fuel d : Nat) (t : Ty) (b : Bytes) :
+    (∃ v r, decTy S fuel d t b = .ok (v, r)) ∨ (∃ err, decTy S fuel d t b = .error err) := by
+  cases h : decTy S fuel d t b with
   | ok p => exact .inl ⟨p.1, p.2, rfl⟩
   | error e => exact .inr ⟨e, rfl⟩
 
@@ -97,8 +118,8 @@ theorem core_schema_wf : coreSchema.wf = true := by decide +kernel
 theorem core_schema_size : coreSchema.ctors.size = 139 ∧ coreSchema.ifaces.size = 17 := by decide +kernel
 
 theorem core_roundtrip (t : Ty) (v : Val) (e rest : Bytes) (henc : encTy coreSchema t v = some e) :
-    decTy coreSchema v.size t (e ++ rest) = .ok (v, rest) :=
-  tl_roundtrip coreSchema core_schema_wf t v e rest v.size henc (Nat.le_refl _)
+    decTy coreSchema v.size v.depth t (e ++ rest) = .ok (v, rest) :=
+  tl_roundtrip coreSchema core_schema_wf t v e rest v.size v.depth henc (Nat.le_refl _) (Nat.le_refl _)
 
 /-! ### Kernel-checked instance: the WHOLE regenerated schema (mt, e2e, tg: all 2629 constructors)
 
@@ -119,9 +140,9 @@ theorem full_schema_digest :
 /-- The round trip for every generated constructor / interface / vector type of tg, mt, e2e, with
 no hypothesis left about the schema. -/
 theorem full_roundtrip (t : Ty) (v : Val) (e rest : Bytes)
-    (henc : encTy TdModel.Facts.C21Full.fullSchema t v = some e) :
-    decTy TdModel.Facts.C21Full.fullSchema v.size t (e ++ rest) = .ok (v, rest) :=
-  tl_roundtrip _ full_schema_wf t v e rest v.size henc (Nat.le_refl _)
+    (henc : encTy TdModel.Facts.C21Full.fullSchema t v = some e) (hdepth : v.depth ≤ 1000) :
+    decTy TdModel.Facts.C21Full.fullSchema v.size 1000 t (e ++ rest) = .ok (v, rest) :=
+  tl_roundtrip _ full_schema_wf t v e rest v.size 1000 henc (Nat.le_refl _) hdepth
 
 /-! Non-vacuity: a small schema with an interface of two constructors, a flags word, a
 conditional field, a true-flag and a vector; it is well-formed and the value is encodable. -/
